@@ -29,6 +29,9 @@ DEFAULTS = {"value": float("nan"), "start": 0.0, "min": -math.inf, "max": math.i
 def gen_attr_expr(rng, params, klass):
     p = [var(x) for x in params]
     c = lambda: num(round(rng.uniform(0.5, 5), 2))
+    if (klass == "literal" or not p) and rng.random() < 0.15:
+        # different literals that agree in their first six significant digits
+        return num(rng.choice([0.9999999, 1.0000001, 1, 0.1234567, 0.1234568, 2.5000001, 2.5000002]))
     if klass == "literal" or not p:
         v = round(rng.uniform(-5, 5), 2)
         return num(v) if v >= 0 else ("neg", num(-v))
